@@ -14,7 +14,9 @@ import (
 	"strconv"
 	"strings"
 
+	dbm "github.com/33cn/chain33/common/db"
 	clog "github.com/33cn/chain33/common/log"
+	"github.com/33cn/chain33/queue"
 	"github.com/33cn/chain33/system/store/mavl"
 	mavldb "github.com/33cn/chain33/system/store/mavl/db"
 	"github.com/33cn/chain33/types"
@@ -61,6 +63,7 @@ type Eng struct {
 	cfg   Cfg
 	store *mavl.Store
 	tcfg  *mavldb.TreeConfig
+	q     queue.Queue
 }
 
 // NewEng creates the engine; scratch databases live under $VERIF_TMP.
@@ -87,7 +90,25 @@ func (e *Eng) closeStore() {
 		e.store.Close()
 		e.store = nil
 	}
+	if e.q != nil {
+		e.q.Close()
+		e.q = nil
+	}
 }
+
+// AttachQueue connects the current store to a fresh message queue (BaseStore.SetQueueClient): requests sent to topic
+// "store" are then handled by BaseStore.processMessage, one goroutine per request.
+func (e *Eng) AttachQueue() queue.Client {
+	e.q = queue.New("channel")
+	e.store.SetQueueClient(e.q.Client())
+	return e.q.Client()
+}
+
+// DB exposes the store's database (pruning entry points take it).
+func (e *Eng) DB() dbm.DB { return e.store.GetDB() }
+
+// TreeCfg is the tree configuration equal to the store's.
+func (e *Eng) TreeCfg() *mavldb.TreeConfig { return e.tcfg }
 
 func (e *Eng) open() {
 	sub := fmt.Sprintf(`{"enableMavlPrefix":%v,"enableMVCC":%v,"enableMavlPrune":%v,"pruneHeight":%d,"enableMemTree":%v,"enableMemVal":%v,"tkCloseCacheLen":100}`,
